@@ -526,6 +526,9 @@ func newJoin(c Cfg, w *vrt.World) *explore.Instance {
 					}
 					if !equalInts(s, snap) {
 						m.f.fail("C08", "no-copy mode: delivered slice changed from %v to %v before it was released", snap, s)
+						if c.Stop != "" {
+							m.f.fail("C16", "no-copy mode, Stop/cancel: the slice the consumer holds (not released) changed from %v to %v: what was delivered is no longer what was written", snap, s)
+						}
 					}
 					kept = append(kept, keptSlice{s: s, n: len(s), snap: snap})
 					if c.Mode == "norelease" {
@@ -614,7 +617,7 @@ func newJoin(c Cfg, w *vrt.World) *explore.Instance {
 					return fmt.Sprintf("C16: Stop()/cancel did not complete: %s", w.Describe())
 				}
 			}
-			if want(c, "C08") && c.NoCopy && !vrt.RaceBuild {
+			if (want(c, "C08") || want(c, "C16")) && c.NoCopy && !vrt.RaceBuild {
 				// v1: stopped or cancelled before the release signal: the delivered
 				// slice is never touched again
 				for _, k := range kept {
@@ -622,7 +625,7 @@ func newJoin(c Cfg, w *vrt.World) *explore.Instance {
 						continue // after the release signal the memory is the discipline's again
 					}
 					if !equalInts(k.s[:k.n], k.snap) {
-						return fmt.Sprintf("C08: no-copy mode: a slice delivered as %v and not yet released when the discipline was stopped/cancelled now reads %v", k.snap, k.s[:k.n])
+						return fmt.Sprintf("%s: no-copy mode: a slice delivered as %v and not yet released when the discipline was stopped/cancelled now reads %v", c.Prop, k.snap, k.s[:k.n])
 					}
 				}
 			}
